@@ -300,6 +300,7 @@ MAINLOOP:
 				return
 			}
 			eventNumber++
+			verifPoint(ctx, "fw.event", "name", ev.Name, "op", ev.Op.String())
 			// Filter events down to those pointing at the filename
 			// and its parent (both with and without symlinks
 			// resolved.
